@@ -81,10 +81,10 @@ def replay_sp_main_{L}(t):
 ''')
     # histories on the real store: first operation fixed per condition, the rest symbolic
     n = 3 if quick else 5
-    for op0 in range(8):
+    for op0 in range(10):
         for t0 in range(2):
             ps = ", ".join(f"o{i}: int, t{i}: int" for i in range(1, n))
-            pre = " and ".join(f"0 <= o{i} < 8 and 0 <= t{i} < 2" for i in range(1, n))
+            pre = " and ".join(f"0 <= o{i} < 10 and 0 <= t{i} < 2" for i in range(1, n))
             ops = f"[({op0}, {t0}), " + ", ".join(f"(o{i}, t{i})" for i in range(1, n)) + "]"
             out.append(f'''
 def hist_{op0}_{t0}({ps}) -> bool:
@@ -128,7 +128,7 @@ def run(rep: C.Report) -> None:
         "yields the titles actually queried; CrossHair checks for every symbolic title (characters over {a,A,_,space,b}) and every spelling variant "
         "(prefix given/omitted/lower-case/alias, underscore vs space, lower-case first letter) that the written key is among the queried titles, and that a "
         "title differing in the case of a later letter is not. Read-after-write: on the REAL SQLite store and the REAL lru_cache, every history of "
-        "3 (thorough: 5) operations from {add v1, add v2, add v1 with another content model, add redirect, get, exists, body, resolve-redirect} x 2 titles equals a dict model; the first operation is fixed "
+        "3 (thorough: 5) operations from {add v1, add v2, add v1 with another content model, add redirect (target written in full / without the prefix / lower-case), get, exists, body, resolve-redirect} x 2 titles equals a dict model; the first operation is fixed "
         "per condition and the solver drives the case split over the rest (said openly: finite enumeration by forks). CrossHair bypasses functools.lru_cache wrappers "
         "while tracing, so after the solver has chosen a history its operations run untraced, on the real memo; all lru_cache memos found on the class are cleared between histories."
     )
@@ -141,7 +141,7 @@ def run(rep: C.Report) -> None:
         }, timeout=90 if quick else 600, src=src, batch=4, twins=False, select="^sp_")
     # the history conditions only case-split in the solver and run the operations untraced (see harness): ~25 ms per history
     xh.check_harness(rep, H, {
-            "^hist_": dict(name="Ob2/Ob3 read-after-write and one-hop redirect on the real store", functions=["core.py:Wtp.add_page", "core.py:Wtp.get_page", "core.py:Wtp.page_exists", "core.py:Wtp.get_page_resolve_redirect"], bounds=f"all histories of {3 if quick else 5} operations over 8 operation kinds x 2 titles (case split by forks)"),
+            "^hist_": dict(name="Ob2/Ob3 read-after-write and one-hop redirect on the real store", functions=["core.py:Wtp.add_page", "core.py:Wtp.get_page", "core.py:Wtp.page_exists", "core.py:Wtp.get_page_resolve_redirect"], bounds=f"all histories of {3 if quick else 5} operations over 10 operation kinds x 2 titles (case split by forks)"),
         }, timeout=90 if quick else 3600, src=src, batch=4 if quick else 1, twins=False, select="^hist_")
 
 
